@@ -10,6 +10,7 @@ import (
 	"encoding/hex"
 	"fmt"
 	"math/big"
+	"strings"
 	"testing"
 	"testing/synctest"
 	"time"
@@ -54,7 +55,40 @@ func ls2Shape(r *engine.RNG) *engine.Shape {
 	if r.Chance(1, 3) {
 		sh.Opts = [][2]string{{"svc", "x"}, {"tcp", "1234"}}[:r.Range(1, 2)]
 	}
+	if r.Chance(1, 25) {
+		// the largest LeaseSet2 an EncryptedLeaseSet can carry: its ciphertext
+		// (32-byte ephemeral key, 12-byte nonce, 16-byte tag around it) must fit
+		// the 16-bit inner length, so 65535-60 bytes of plaintext — exactly that,
+		// one less, one more
+		padTo(sh, 65535-60+r.PickInt(0, 0, 0, -1, 1, -2, -60))
+	}
 	return sh
+}
+
+// padTo fills the options of a LeaseSet2 shape with pairs "pNNN" = v… so that
+// the encoded structure is exactly total bytes long (a pair costs 8 bytes plus
+// its value; values are at most 255 bytes).
+func padTo(sh *engine.Shape, total int) {
+	sh.Opts, sh.Unsorted = nil, false
+	f, err := refmodel.Build(sh)
+	if err != nil {
+		return
+	}
+	d := total - len(f.Bytes)
+	if d < 8 {
+		return
+	}
+	add := func(v int) {
+		sh.Opts = append(sh.Opts, [2]string{fmt.Sprintf("p%03d", len(sh.Opts)), strings.Repeat("v", v)})
+		d -= 8 + v
+	}
+	for d > 263+8 {
+		add(255)
+	}
+	if d > 263 {
+		add(100)
+	}
+	add(d - 8)
 }
 
 func (World) Generate(r *engine.RNG, tier string) *engine.Script {
@@ -393,6 +427,9 @@ func encrypt(o *engine.Outcome, op *engine.Op, f *engine.Fault, store map[int64]
 		o.Probe("encrypt_succeeds_although_one_entropy_read_failed")
 	}
 	plain, _ := ls2.Bytes()
+	if n := len(plain) + 60; n >= 65535-2 && n <= 65535 {
+		o.Probe(fmt.Sprintf("plaintext_within_2_bytes_of_the_largest_an_encrypted_leaseset_can_carry:%d", len(plain)))
+	}
 	if !constructed && !bytes.Equal(plain, rf.Bytes) {
 		o.Probe("ls2_bytes_differ_from_reference") // C01 matter
 	}
